@@ -101,6 +101,19 @@ type CaseSpec struct {
 	// item variant 3 then signs with the domain of the fork active at Boundary-1 (builder
 	// registrations, which sign with the genesis domain: with the fork active at Boundary).
 	Boundary uint64 `json:"boundary"`
+	// Fault injection: the FaultAt-th beacon-node lookup (spec, domain, genesis domain, fork schedule)
+	// the component makes while handling this call fails with FaultKind: deadline | canceled |
+	// generic | block (hangs until the caller's context ends; the harness cancels the request).
+	FaultAt   int    `json:"fault_at"`
+	FaultKind string `json:"fault_kind"`
+	// Prime: the unaltered, validly signed object is submitted first through the same entrance (and
+	// let in); the case proper then re-submits it altered with the very same signature bytes.
+	Prime bool `json:"prime"`
+	// Replay only: the components are long-lived, so a case is replayed after re-running the history
+	// that preceded it in the run that found it (same seed and enumeration parameters).
+	HistSeed   int64 `json:"hist_seed"`
+	HistLeaves int   `json:"hist_leaves"`
+	HistElems  int   `json:"hist_elems"`
 }
 
 // Deliv is one partial observed at a subscriber.
@@ -121,6 +134,7 @@ type Case struct {
 	Label      string    `json:"label"`
 	Expect     string    `json:"expect"` // in | reject, as the alteration class intends (documentation only)
 	NonTrivial bool      `json:"nontrivial"`
+	Fault      bool      `json:"fault"` // the scripted lookup fault fired during the call
 	Skipped    string    `json:"skipped,omitempty"`
 }
 
@@ -152,6 +166,16 @@ type env struct {
 	boundary     uint64
 	genesis      time.Time
 	slotDur      time.Duration
+	// fault injection
+	faultArmed bool
+	faultFired bool
+	faultAt    int
+	faultKind  string
+	lookups    int
+	cancelReq  context.CancelFunc
+	reqCtx     context.Context
+	deferMut   bool
+	fhBlock    *fakeHost // a second parsigex with a short receive timeout, for lookups that hang
 	// components
 	vapi    *validatorapi.Component
 	fh      *fakeHost
@@ -198,6 +222,77 @@ func (s *fakeStream) SetWriteDeadline(time.Time) error { return nil }
 func (s *fakeStream) SetDeadline(time.Time) error      { return nil }
 func (s *fakeStream) Protocol() protocol.ID            { return s.pid }
 func (s *fakeStream) Conn() network.Conn               { return s.conn }
+
+// ---- fault injection at the beacon-node lookups the components verify with
+
+// faultClient is the eth2 client handed to validatorapi.NewComponent and parsigex.NewEth2Verifier:
+// the beacon mock, except that the lookups signature verification depends on can be made to fail.
+type faultClient struct {
+	beaconmock.Mock
+	e *env
+}
+
+func (f faultClient) Spec(ctx context.Context, opts *eth2api.SpecOpts) (*eth2api.Response[map[string]any], error) {
+	if err := f.e.lookup(ctx); err != nil {
+		return nil, err
+	}
+
+	return f.Mock.Spec(ctx, opts)
+}
+
+func (f faultClient) Domain(ctx context.Context, dt eth2p0.DomainType, epoch eth2p0.Epoch) (eth2p0.Domain, error) {
+	if err := f.e.lookup(ctx); err != nil {
+		return eth2p0.Domain{}, err
+	}
+
+	return f.Mock.Domain(ctx, dt, epoch)
+}
+
+func (f faultClient) GenesisDomain(ctx context.Context, dt eth2p0.DomainType) (eth2p0.Domain, error) {
+	if err := f.e.lookup(ctx); err != nil {
+		return eth2p0.Domain{}, err
+	}
+
+	return f.Mock.GenesisDomain(ctx, dt)
+}
+
+func (f faultClient) ForkSchedule(ctx context.Context, opts *eth2api.ForkScheduleOpts) (*eth2api.Response[[]*eth2p0.Fork], error) {
+	if err := f.e.lookup(ctx); err != nil {
+		return nil, err
+	}
+
+	return f.Mock.ForkSchedule(ctx, opts)
+}
+
+// lookup is called at every such lookup a component makes; the faultAt-th one of the armed call fails.
+func (e *env) lookup(ctx context.Context) error {
+	if !e.faultArmed {
+		return nil
+	}
+	e.lookups++
+	if e.lookups != e.faultAt {
+		return nil
+	}
+	e.faultFired = true
+	switch e.faultKind {
+	case "deadline":
+		return context.DeadlineExceeded
+	case "canceled":
+		return context.Canceled
+	case "block": // the lookup hangs until the caller gives up
+		if e.cancelReq != nil {
+			e.cancelReq()
+		}
+		select {
+		case <-ctx.Done():
+			return ctx.Err()
+		case <-time.After(3 * time.Second):
+			return context.DeadlineExceeded
+		}
+	}
+
+	return errors.New("verif-env-fault: beacon node unavailable")
+}
 
 // ---- environment
 
@@ -250,7 +345,9 @@ func newEnv(t *testing.T) *env {
 	}
 
 	// validator API, secure mode
-	e.vapi, err = validatorapi.NewComponent(e.bmock, pubshares, selfIdx, nil, true, 30000000)
+	fc := faultClient{Mock: e.bmock, e: e}
+	e.reqCtx = e.ctx
+	e.vapi, err = validatorapi.NewComponent(fc, pubshares, selfIdx, nil, true, 30000000)
 	must(t, err)
 	refuse := errors.New("verif-env-notfound")
 	e.vapi.RegisterPubKeyByAttestation(func(_ context.Context, slot, commIdx, valIdx uint64) (core.PubKey, error) {
@@ -323,27 +420,33 @@ func newEnv(t *testing.T) *env {
 	must(t, err)
 	e.genesis, e.slotDur = genesis.Data.GenesisTime, sd
 	e.gateT = e.genesis.Add(time.Duration(e.baseSlot) * sd)
-	verify, err := parsigex.NewEth2Verifier(e.bmock, pubshares)
+	verify, err := parsigex.NewEth2Verifier(fc, pubshares)
 	must(t, err)
-	e.fh = &fakeHost{}
 	peers := []peer.ID{"peer-a", "peer-b", "peer-c", "peer-d"}
-	e.psx = parsigex.NewParSigEx(e.fh, p2p.Send, selfIdx-1, peers,
-		func(ctx context.Context, p peer.ID, d core.Duty, pk core.PubKey, data core.ParSignedData) error {
-			err := verify(ctx, p, d, pk, data)
-			e.verLog = append(e.verLog, err)
-			return err
-		},
-		func(d core.Duty) bool {
-			ok := e.gater(d)
-			e.gateLog = append(e.gateLog, ok)
-			return ok
-		})
-	for si := 0; si < 2; si++ {
-		e.psx.Subscribe(func(_ context.Context, _ core.Duty, set core.ParSignedDataSet) error {
-			e.subs[si] = append(e.subs[si], e.observe(set)...)
-			return nil
-		})
+	mkPsx := func(fh *fakeHost, opts ...p2p.SendRecvOption) *parsigex.ParSigEx {
+		px := parsigex.NewParSigEx(fh, p2p.Send, selfIdx-1, peers,
+			func(ctx context.Context, p peer.ID, d core.Duty, pk core.PubKey, data core.ParSignedData) error {
+				err := verify(ctx, p, d, pk, data)
+				e.verLog = append(e.verLog, err)
+				return err
+			},
+			func(d core.Duty) bool {
+				ok := e.gater(d)
+				e.gateLog = append(e.gateLog, ok)
+				return ok
+			}, opts...)
+		for si := 0; si < 2; si++ {
+			px.Subscribe(func(_ context.Context, _ core.Duty, set core.ParSignedDataSet) error {
+				e.subs[si] = append(e.subs[si], e.observe(set)...)
+				return nil
+			})
+		}
+
+		return px
 	}
+	e.fh, e.fhBlock = &fakeHost{}, &fakeHost{}
+	e.psx = mkPsx(e.fh)
+	_ = mkPsx(e.fhBlock, p2p.WithReceiveTimeout(50*time.Millisecond)) // same verifier and gater; its handler context expires quickly
 	if e.fh.handler == nil {
 		t.Fatal("parsigex did not register a stream handler")
 	}
@@ -392,10 +495,16 @@ func (e *env) ownRoot(g dutygen.Gen, raw any, variant int) (root [32]byte, ok bo
 	if err != nil {
 		return root, false
 	}
-	if variant == 3 { // neighbouring fork
+	if variant == 3 || variant == 4 { // 3: neighbouring fork; 4: a far-away fork (the latest one, or an early one when the object is late)
 		fe := ep - 1
 		if dom == signing.DomainApplicationBuilder {
 			fe = eth2p0.Epoch(e.boundary)
+		}
+		if variant == 4 {
+			fe = 60000
+			if ep >= 50688 {
+				fe = 100
+			}
 		}
 		root, err = dutygen.SigningRootForkAt(e.ctx, e.bmock, dom, oroot, fe)
 
@@ -620,32 +729,32 @@ func (e *env) endpoints() []endpoint {
 				atts = append(atts, r.(*eth2spec.VersionedAttestation))
 			}
 
-			return e.vapi.SubmitAttestations(e.ctx, &eth2api.SubmitAttestationsOpts{Attestations: atts})
+			return e.vapi.SubmitAttestations(e.reqCtx, &eth2api.SubmitAttestationsOpts{Attestations: atts})
 		}},
 		{name: "Proposal(randao)", gens: []string{"randao"}, family: "randao", submit: func(e *env, raws []any) error {
 			r := raws[0].(*dutygen.Randao)
-			_, err := e.vapi.Proposal(e.ctx, &eth2api.ProposalOpts{Slot: eth2p0.Slot(uint64(r.Epoch)*e.spe + e.baseSlot%e.spe), RandaoReveal: r.Signature})
+			_, err := e.vapi.Proposal(e.reqCtx, &eth2api.ProposalOpts{Slot: eth2p0.Slot(uint64(r.Epoch)*e.spe + e.baseSlot%e.spe), RandaoReveal: r.Signature})
 
 			return err
 		}},
 		{name: "SubmitProposal", gens: prefixGens(e, "proposal/"), family: "proposer", submit: func(e *env, raws []any) error {
-			return e.vapi.SubmitProposal(e.ctx, &eth2api.SubmitProposalOpts{Proposal: raws[0].(*eth2api.VersionedSignedProposal)})
+			return e.vapi.SubmitProposal(e.reqCtx, &eth2api.SubmitProposalOpts{Proposal: raws[0].(*eth2api.VersionedSignedProposal)})
 		}},
 		{name: "SubmitBlindedProposal", gens: prefixGens(e, "blinded_proposal/"), family: "proposer", submit: func(e *env, raws []any) error {
 			p := raws[0].(*eth2api.VersionedSignedProposal)
-			return e.vapi.SubmitBlindedProposal(e.ctx, &eth2api.SubmitBlindedProposalOpts{Proposal: &eth2api.VersionedSignedBlindedProposal{
+			return e.vapi.SubmitBlindedProposal(e.reqCtx, &eth2api.SubmitBlindedProposalOpts{Proposal: &eth2api.VersionedSignedBlindedProposal{
 				Version: p.Version, Bellatrix: p.BellatrixBlinded, Capella: p.CapellaBlinded, Deneb: p.DenebBlinded, Electra: p.ElectraBlinded, Fulu: p.FuluBlinded,
 			}})
 		}},
 		{name: "SubmitVoluntaryExit", gens: []string{"voluntary_exit"}, family: "index", submit: func(e *env, raws []any) error {
-			return e.vapi.SubmitVoluntaryExit(e.ctx, raws[0].(*eth2p0.SignedVoluntaryExit))
+			return e.vapi.SubmitVoluntaryExit(e.reqCtx, raws[0].(*eth2p0.SignedVoluntaryExit))
 		}},
 		{name: "BeaconCommitteeSelections", gens: []string{"beacon_committee_selection"}, family: "index", multi: true, submit: func(e *env, raws []any) error {
 			var xs []*eth2v1.BeaconCommitteeSelection
 			for _, r := range raws {
 				xs = append(xs, r.(*eth2v1.BeaconCommitteeSelection))
 			}
-			_, err := e.vapi.BeaconCommitteeSelections(e.ctx, &eth2api.BeaconCommitteeSelectionsOpts{Selections: xs})
+			_, err := e.vapi.BeaconCommitteeSelections(e.reqCtx, &eth2api.BeaconCommitteeSelectionsOpts{Selections: xs})
 
 			return err
 		}},
@@ -655,7 +764,7 @@ func (e *env) endpoints() []endpoint {
 				xs = append(xs, r.(*eth2spec.VersionedSignedAggregateAndProof))
 			}
 
-			return e.vapi.SubmitAggregateAttestations(e.ctx, &eth2api.SubmitAggregateAttestationsOpts{SignedAggregateAndProofs: xs})
+			return e.vapi.SubmitAggregateAttestations(e.reqCtx, &eth2api.SubmitAggregateAttestationsOpts{SignedAggregateAndProofs: xs})
 		}},
 		{name: "SubmitSyncCommitteeMessages", gens: []string{"sync_message"}, family: "index", multi: true, submit: func(e *env, raws []any) error {
 			var xs []*altair.SyncCommitteeMessage
@@ -663,7 +772,7 @@ func (e *env) endpoints() []endpoint {
 				xs = append(xs, r.(*altair.SyncCommitteeMessage))
 			}
 
-			return e.vapi.SubmitSyncCommitteeMessages(e.ctx, xs)
+			return e.vapi.SubmitSyncCommitteeMessages(e.reqCtx, xs)
 		}},
 		{name: "SubmitSyncCommitteeContributions", gens: []string{"sync_contribution"}, family: "index", multi: true, submit: func(e *env, raws []any) error {
 			var xs []*altair.SignedContributionAndProof
@@ -671,14 +780,14 @@ func (e *env) endpoints() []endpoint {
 				xs = append(xs, r.(*altair.SignedContributionAndProof))
 			}
 
-			return e.vapi.SubmitSyncCommitteeContributions(e.ctx, xs)
+			return e.vapi.SubmitSyncCommitteeContributions(e.reqCtx, xs)
 		}},
 		{name: "SyncCommitteeSelections", gens: []string{"sync_committee_selection"}, family: "index", multi: true, submit: func(e *env, raws []any) error {
 			var xs []*eth2v1.SyncCommitteeSelection
 			for _, r := range raws {
 				xs = append(xs, r.(*eth2v1.SyncCommitteeSelection))
 			}
-			_, err := e.vapi.SyncCommitteeSelections(e.ctx, &eth2api.SyncCommitteeSelectionsOpts{Selections: xs})
+			_, err := e.vapi.SyncCommitteeSelections(e.reqCtx, &eth2api.SyncCommitteeSelectionsOpts{Selections: xs})
 
 			return err
 		}},
@@ -881,6 +990,9 @@ func getSig(g dutygen.Gen, raw any) (sig tbls.Signature, ok bool) {
 
 // build makes the final raw object of an item spec.
 func (e *env) build(g dutygen.Gen, family string, it ItemSpec, slot uint64) any {
+	if e.deferMut {
+		it.Mut = "" // applied by the caller after the unaltered object was submitted once
+	}
 	raw := e.prepare(g, family, it.Val, slot)
 	sign := func() {
 		root, ok := e.ownRoot(g, raw, it.Variant)
@@ -977,8 +1089,22 @@ func (e *env) runVapi(spec CaseSpec, ep endpoint) Case {
 	e.curGen = g
 	slot := e.caseSlot(spec)
 	var raws []any
+	e.deferMut = spec.Prime
 	for _, it := range spec.Items {
 		raws = append(raws, e.build(g, ep.family, it, slot))
+	}
+	e.deferMut = false
+	if spec.Prime {
+		func() {
+			defer func() { _ = recover() }()
+			_ = ep.submit(e, raws)
+		}()
+		e.whoLog, e.subs = nil, [][]Deliv{nil, nil}
+		for i, it := range spec.Items {
+			if it.Mut != "" {
+				mutateLeaf(raws[i], it.Mut)
+			}
+		}
 	}
 	// abstract items from the final request
 	type absItem struct {
@@ -1042,8 +1168,14 @@ func (e *env) runVapi(spec CaseSpec, ep endpoint) Case {
 				err = fmt.Errorf("verif-panic: %v", r)
 			}
 		}()
+		rctx, cancel := context.WithCancel(e.ctx)
+		defer cancel()
+		e.reqCtx, e.cancelReq = rctx, cancel
+		e.faultArmed, e.faultFired, e.lookups, e.faultAt, e.faultKind = spec.FaultAt > 0, false, 0, spec.FaultAt, spec.FaultKind
+		defer func() { e.faultArmed, e.reqCtx, e.cancelReq = false, e.ctx, nil }()
 		err = ep.submit(e, raws)
 	}()
+	c.Fault = e.faultFired
 	c.Err = errClassVapi(err)
 	if err != nil {
 		c.ErrText = err.Error()
@@ -1085,7 +1217,7 @@ func (e *env) runVapi(spec CaseSpec, ep endpoint) Case {
 	if c.Err != "" {
 		errTerm = "(Some " + c.Err + ")"
 	}
-	c.Label = fmt.Sprintf("mkl lock (VApi %s) [%s] 2 %s %s", coqZ(selfIdx), strings.Join(items, "; "), errTerm, e.renderCalls(&c))
+	c.Label = fmt.Sprintf("mkl lock (VApi %s) [%s] 2 %s %s %s", coqZ(selfIdx), strings.Join(items, "; "), coqBool(c.Fault), errTerm, e.renderCalls(&c))
 	c.NonTrivial = spec.Class != "valid"
 
 	return c
@@ -1099,34 +1231,41 @@ func (e *env) runPeer(spec CaseSpec) Case {
 	e.curGen = g
 	slot := e.caseSlot(spec)
 	e.gateT = e.genesis.Add(time.Duration(slot) * e.slotDur) // "now" is the slot the objects are made for
-	set := core.ParSignedDataSet{}
-	randomKeys := map[core.PubKey]bool{}
+	fam := ""
+	if g.VIdx != nil {
+		fam = "index"
+	}
+	var raws []any
+	e.deferMut = spec.Prime
 	for _, it := range spec.Items {
-		fam := ""
-		if g.VIdx != nil {
-			fam = "index"
-		}
-		raw := e.build(g, fam, it, slot)
-		var sd core.SignedData
-		if spec.DutyType == int(core.DutySignature) {
-			s, _ := getSig(g, raw)
-			sd = core.Signature(s[:])
-		} else {
-			w, err := g.Wrap(raw)
-			if err != nil {
-				c.Skipped = "cannot wrap: " + err.Error()
-				return c
+		raws = append(raws, e.build(g, fam, it, slot))
+	}
+	e.deferMut = false
+	mkSet := func() (core.ParSignedDataSet, string) {
+		set := core.ParSignedDataSet{}
+		for i, it := range spec.Items {
+			raw := raws[i]
+			var sd core.SignedData
+			if spec.DutyType == int(core.DutySignature) {
+				s, _ := getSig(g, raw)
+				sd = core.Signature(s[:])
+			} else {
+				w, err := g.Wrap(raw)
+				if err != nil {
+					return nil, "cannot wrap: " + err.Error()
+				}
+				sd = w
 			}
-			sd = w
+			pk := core.PubKey("")
+			if it.KeyOf >= 0 {
+				pk = e.vals[it.KeyOf].pk
+			} else {
+				pk = testutil.RandomCorePubKey(e.t)
+			}
+			set[pk] = core.ParSignedData{SignedData: sd, ShareIdx: it.Idx}
 		}
-		pk := core.PubKey("")
-		if it.KeyOf >= 0 {
-			pk = e.vals[it.KeyOf].pk
-		} else {
-			pk = testutil.RandomCorePubKey(e.t)
-			randomKeys[pk] = true
-		}
-		set[pk] = core.ParSignedData{SignedData: sd, ShareIdx: it.Idx}
+
+		return set, ""
 	}
 	dutyType := g.Duty
 	if spec.DutyType != 0 {
@@ -1140,6 +1279,29 @@ func (e *env) runPeer(spec CaseSpec) Case {
 		ds, err := strconv.ParseUint(spec.DutySlot, 10, 64)
 		must(e.t, err)
 		duty.Slot = ds
+	}
+	if spec.Prime { // the unaltered object goes through first
+		if set0, sk := mkSet(); sk == "" {
+			func() {
+				defer func() { _ = recover() }()
+				if pb, err := core.ParSignedDataSetToProto(set0); err == nil {
+					var buf bytes.Buffer
+					must(e.t, pbio.NewDelimitedWriter(&buf).WriteMsg(&pbv1.ParSigExMsg{Duty: core.DutyToProto(duty), DataSet: pb}))
+					e.fh.handler(&fakeStream{r: bytes.NewReader(buf.Bytes()), conn: fakeConn{remote: "peer-a"}, pid: parsigex.Protocols()[0]})
+				}
+			}()
+		}
+		e.subs, e.gateLog, e.verLog = [][]Deliv{nil, nil}, nil, nil
+		for i, it := range spec.Items {
+			if it.Mut != "" {
+				mutateLeaf(raws[i], it.Mut)
+			}
+		}
+	}
+	set, sk := mkSet()
+	if sk != "" {
+		c.Skipped = sk
+		return c
 	}
 	msg := &pbv1.ParSigExMsg{Duty: core.DutyToProto(duty)}
 	var skip string
@@ -1203,7 +1365,14 @@ func (e *env) runPeer(spec CaseSpec) Case {
 	var buf bytes.Buffer
 	must(e.t, pbio.NewDelimitedWriter(&buf).WriteMsg(msg))
 	pid := parsigex.Protocols()[0]
-	e.fh.handler(&fakeStream{r: bytes.NewReader(buf.Bytes()), conn: fakeConn{remote: "peer-a"}, pid: pid})
+	e.faultArmed, e.faultFired, e.lookups, e.faultAt, e.faultKind = spec.FaultAt > 0, false, 0, spec.FaultAt, spec.FaultKind
+	h := e.fh
+	if spec.FaultKind == "block" {
+		h = e.fhBlock // the handler's own context (receive timeout) is what ends a hanging lookup here
+	}
+	h.handler(&fakeStream{r: bytes.NewReader(buf.Bytes()), conn: fakeConn{remote: "peer-a"}, pid: pid})
+	e.faultArmed = false
+	c.Fault = e.faultFired
 
 	switch {
 	case len(e.gateLog) == 1 && !e.gateLog[0]:
@@ -1215,6 +1384,9 @@ func (e *env) runPeer(spec CaseSpec) Case {
 		for _, ve := range e.verLog {
 			if ve != nil {
 				c.Err = errClassPeer(ve)
+				if c.Fault && c.Err == "EUnknown" {
+					c.Err = "EPre" // the lookup fault surfaced as the verifier's error
+				}
 				c.ErrText = ve.Error()
 				if len(c.ErrText) > 160 {
 					c.ErrText = c.ErrText[:160]
@@ -1229,8 +1401,8 @@ func (e *env) runPeer(spec CaseSpec) Case {
 	if c.Err != "" {
 		errTerm = "(Some " + c.Err + ")"
 	}
-	c.Label = fmt.Sprintf("mkl lock (Peer (mkg %s %d %d %d 2) %s) [%s] 2 %s %s",
-		coqBool(typeValid), duty.Slot, slot, e.spe, coqBool(derr == nil), strings.Join(items, "; "), errTerm, e.renderCalls(&c))
+	c.Label = fmt.Sprintf("mkl lock (Peer (mkg %s %d %d %d 2) %s) [%s] 2 %s %s %s",
+		coqBool(typeValid), duty.Slot, slot, e.spe, coqBool(derr == nil), strings.Join(items, "; "), coqBool(c.Fault), errTerm, e.renderCalls(&c))
 	c.NonTrivial = spec.Class != "valid"
 
 	return c
@@ -1307,6 +1479,33 @@ func (e *env) pick(paths []string, k int) []string {
 // forkBoundaries are the first epochs of the forks the beacon mock schedules after genesis.
 var forkBoundaries = []uint64{2048, 50688}
 
+var faultKinds = []string{"deadline", "canceled", "generic", "block"}
+
+// faultPlan lists (position, kind, submission) triples: everything in the thorough tier, a rotating
+// selection plus every position with a wrong-share submission in the quick tier.
+func faultPlan(thorough, peer bool) [][3]string {
+	subsm := []string{"valid", "wrong_share", "other_fork", "field"}
+	maxK := 4
+	if thorough {
+		maxK = 6
+	}
+	var out [][3]string
+	for k := 1; k <= maxK; k++ {
+		for ki, kind := range faultKinds {
+			if peer && kind == "block" && !thorough && k != 2 {
+				continue // a hanging lookup costs the handler's receive timeout
+			}
+			for si, sm := range subsm {
+				if thorough || si == (k+ki)%4 || (sm == "wrong_share" && (kind == "deadline" || kind == "canceled" || (kind == "block" && !peer))) {
+					out = append(out, [3]string{strconv.Itoa(k), kind, sm})
+				}
+			}
+		}
+	}
+
+	return out
+}
+
 type genOut struct {
 	specs  []CaseSpec
 	leaves map[string]int // endpoint|gen -> number of leaf fields enumerated
@@ -1357,6 +1556,39 @@ func (e *env) genCases(perGenLeaves int) genOut {
 				c.Items = []ItemSpec{it}
 				add(c)
 			}
+			// beacon-node lookup faults during the call, around valid and invalid submissions
+			tpaths := e.templatePaths(g, ep.family)
+			for _, fp := range faultPlan(perGenLeaves > 100, false) {
+				k, _ := strconv.Atoi(fp[0])
+				c := base
+				c.Class = "fault:" + fp[1] + ":" + fp[2]
+				c.FaultAt, c.FaultKind = k, fp[1]
+				it := genuine(e.r.Intn(outsider), selfIdx)
+				switch fp[2] {
+				case "wrong_share":
+					alts["wrong_share"](&it)
+				case "other_fork":
+					alts["other_fork"](&it)
+				case "field":
+					it.Mut = tpaths[e.r.Intn(len(tpaths))]
+				}
+				c.Items = []ItemSpec{it}
+				add(c)
+			}
+			// a signature that was let in once, presented again over altered content
+			for _, p := range e.pick(tpaths, (perGenLeaves+1)/2) {
+				c := base
+				c.Class = "replayed_signature_altered:" + p
+				c.Prime = true
+				it := genuine(e.r.Intn(outsider), selfIdx)
+				it.Mut = p
+				c.Items = []ItemSpec{it}
+				add(c)
+			}
+			// the same long-lived component has by now served epochs in all three forks: an object of the
+			// default epoch signed with the latest fork's domain, and a correctly signed one, once more
+			one("far_fork_domain", func(it *ItemSpec) { it.Variant = 4 })
+			one("valid_after_other_forks", nil)
 			paths := e.templatePaths(g, ep.family)
 			if ep.name == "SubmitBlindedProposal" { // VersionedSignedBlindedProposal has no Blinded field
 				var keep []string
@@ -1430,6 +1662,27 @@ func (e *env) genCases(perGenLeaves int) genOut {
 			one("fork_boundary_valid", func(c *CaseSpec, _ *ItemSpec) { c.Boundary = b })
 			one("fork_boundary_neighbour_fork", func(c *CaseSpec, it *ItemSpec) { c.Boundary = b; it.Variant = 3 })
 		}
+		ppaths := e.templatePaths(g, map[bool]string{true: "index", false: ""}[g.VIdx != nil])
+		for _, fp := range faultPlan(perGenLeaves > 100, true) {
+			k, _ := strconv.Atoi(fp[0])
+			one("fault:"+fp[1]+":"+fp[2], func(c *CaseSpec, it *ItemSpec) {
+				c.FaultAt, c.FaultKind = k, fp[1]
+				switch fp[2] {
+				case "wrong_share":
+					palts["wrong_share"](it)
+				case "other_fork":
+					palts["other_fork"](it)
+				case "field":
+					it.Mut = ppaths[e.r.Intn(len(ppaths))]
+				}
+			})
+		}
+		for _, p := range e.pick(ppaths, (perGenLeaves+1)/2) {
+			one("replayed_signature_altered:"+p, func(c *CaseSpec, it *ItemSpec) { c.Prime = true; it.Mut = p })
+		}
+		one("far_fork_domain", func(_ *CaseSpec, it *ItemSpec) { it.Variant = 4 })
+		one("valid_after_other_forks", nil)
+		one("fork_boundary_far_fork", func(c *CaseSpec, it *ItemSpec) { c.Boundary = 50688; it.Variant = 4 })
 		// the gater window on absolute slots, validly signed objects inside: the edges of the window
 		// and slots so large that any time arithmetic on them wraps
 		now := e.baseSlot / e.spe
@@ -1497,6 +1750,16 @@ func TestGen(t *testing.T) {
 	var replay CaseSpec
 	if ok, err := hx.ReadReplay(&replay); ok {
 		must(t, err)
+		if replay.HistLeaves > 0 { // re-run what the long-lived components had served before this case
+			listElems = replay.HistElems
+			e.r = rand.New(rand.NewSource(replay.HistSeed)) //nolint:gosec
+			for _, s := range e.genCases(replay.HistLeaves).specs {
+				if s.ID >= replay.ID {
+					break
+				}
+				e.runSpec(s)
+			}
+		}
 		c := e.runSpec(replay)
 		must(t, hx.WriteJSON("gate_cases.json", map[string]any{"lock": e.lockCoq, "cases": []Case{c}, "leaves": map[string]int{}}))
 
